@@ -342,7 +342,7 @@ class _YieldTo(ast.NodeTransformer):
 # safe positions for hoisting a call out of an expression
 def _safe_calls(node: ast.AST):
     if isinstance(node, (ast.Lambda, ast.ListComp, ast.SetComp, ast.DictComp, ast.GeneratorExp, ast.FunctionDef, ast.ClassDef,
-                         ast.Yield, ast.YieldFrom, ast.Await, ast.NamedExpr)):
+                         ast.YieldFrom, ast.Await, ast.NamedExpr)):
         return
     if isinstance(node, ast.BoolOp):
         yield from _safe_calls(node.values[0])
@@ -1028,7 +1028,7 @@ def push_continuation(fn: ast.AST) -> int:
                     count += 1
                     done = True
                     break
-                if not isinstance(nxt, ast.Assign):
+                if not isinstance(nxt, (ast.Assign, ast.AugAssign, ast.Expr, ast.Return)) or nxt.value is None:
                     continue
                 uses = [x for x in _safe_names(nxt.value) if _is_temp(x.id)]
                 for u in uses:
@@ -1228,6 +1228,33 @@ def forward_substitute(fn: ast.AST):
                             changed = True
                             continue
                     i += 1
+        # `x = _hN_t` where the temporary is bound once and only read here, and x is bound only here: the temporary *is* x
+        name_stores: Dict[str, int] = {}
+        for n in ast.walk(fn):
+            if isinstance(n, ast.Name) and isinstance(n.ctx, (ast.Store, ast.Del)):
+                name_stores[n.id] = name_stores.get(n.id, 0) + 1
+            elif isinstance(n, ast.arg):
+                name_stores[n.arg] = name_stores.get(n.arg, 0) + 1
+        for holder in ast.walk(fn):
+            for fld in ("body", "orelse", "finalbody"):
+                blk = getattr(holder, fld, None)
+                if not (isinstance(blk, list) and blk and isinstance(blk[0], ast.stmt)):
+                    continue
+                for st in list(blk):
+                    if isinstance(st, ast.Assign) and len(st.targets) == 1 and isinstance(st.targets[0], ast.Name) and isinstance(st.value, ast.Name) \
+                            and _is_temp(st.value.id) and not _is_temp(st.targets[0].id):
+                        t, x = st.value.id, st.targets[0].id
+                        later = {id(n) for s_ in blk[blk.index(st) + 1:] for n in ast.walk(s_)}
+                        x_loads = [n for n in ast.walk(fn) if isinstance(n, ast.Name) and n.id == x and isinstance(n.ctx, ast.Load)]
+                        if stores.get(t, 0) == 1 and name_stores.get(x, 0) == 1 and all(id(n) in later for n in x_loads):
+                            for n in ast.walk(fn):
+                                if isinstance(n, ast.Name) and n.id == t:
+                                    n.id = x
+                            blk.remove(st)
+                            if not blk:
+                                blk.append(ast.copy_location(ast.Pass(), st))
+                            stores[t] = loads[t] = 0
+                            changed = True
         if not changed:
             break
 
@@ -1300,7 +1327,8 @@ def normalise(p: Program, vocab: Optional[Set[str]] = None) -> Tuple[Dict[str, a
             forward_substitute(tgt)
             if push_continuation(tgt):
                 forward_substitute(tgt)
-            fold_tuples(tgt)
+            if fold_tuples(tgt):
+                forward_substitute(tgt)
             changed.add(f.module.name)
     if not inl.log and not n_unrolled:
         return {}, {"inlined_calls": 0, "helpers": [], "removed": [], "unrolled_tables": 0}
